@@ -60,6 +60,23 @@ CHECKS = {
              "written record and the final flush. Quick tier: all scenarios of <= 2 files and a seeded sample of 3-file "
              "scenarios; thorough: all. Trusted: TLC, hook placement (corruption self-test on every run), chattr +i as the "
              "unwritable directory."),
+    "C20": dict(
+        engine="fanout",
+        technique="TLA+ refinement check (TLC) of the handle-cache implementation model against the one-document-per-target "
+                  "requirement (FanOut.tla); TLC-enumerated write histories replayed through the CLI with a block mapping "
+                  "onto the real capacity 256; files judged by FanOutObs.tla; cache hook log validated by FanOutTrace.tla",
+        level=dict(category="model_checking", design_ref="DESIGN.md §4.3, §5 C20",
+                   text="FanOut.tla states the requirement (Required: each target's file is one well-formed document of "
+                        "exactly its records in order, appended to prior contents in append mode) and transcribes "
+                        "MultiOutputHandlerManager (LRU, eviction, append re-open with a fresh writer) as Step/ImplFiles. "
+                        "TLC checks Refines for capacities 1..3, three document kinds, write/append, pre-existing files. "
+                        "Every write history up to the bound is replayed on the rebuilt binary via redirected "
+                        "tee/emit/print, split -g and pipes; FanOutObs.tla judges each produced file against Required "
+                        "(verdict) and against ImplFiles (conformance); the cache's hit/evict/open hook log is validated "
+                        "against the model with the real capacity."),
+        note="Histories bounded to <= 4-6 writes over 3 abstract targets; capacity K of the model mapped onto the code's "
+             "constant 256 by blocks of 256/K real files written in sequence. Files are tokenised by the harness (header "
+             "lines, records, JSON top-level values). Trusted: TLC, the tokeniser, the fixed table of CLI forms."),
 }
 
 NOT_BUILT = "engine not built yet in this round (see DESIGN.md §9 work order)"
@@ -98,6 +115,8 @@ def main():
     for c in checks:
         engines.setdefault(c["engine"], []).append(c["property_id"])
     ENGINE_INFO = {
+        "fanout": ("spec/FanOut.tla", "TLA+ requirement + implementation model of the output-handle cache, refinement by TLC, "
+                                      "history replay through the CLI, trace validation of the cache"),
         "inplace": ("spec/InPlace.tla", "TLA+ spec of the -I protocol + TLC-enumerated crash replay + trace/state validation"),
         "pipeline": ("spec/Pipeline.tla", "TLA+ spec of the goroutine/channel skeleton + TLC exhaustive runs + trace "
                                           "validation + TLC-judged real executions"),
